@@ -56,18 +56,26 @@ struct ShadowCells(Arc<Vec<loom::cell::UnsafeCell<()>>>);
 
 #[cfg(jubako_verif_loom)]
 impl ShadowCells {
+    /// Only the first `MAX` bytes are shadowed: every access to a cell advances a 16 bits wide
+    /// version counter of loom, which wraps (and reports a bogus causality violation) when a
+    /// model reads a buffer of several KiB a few times.
+    const MAX: usize = 256;
+
     fn new(size: usize) -> Self {
         Self(Arc::new(
-            (0..size).map(|_| loom::cell::UnsafeCell::new(())).collect(),
+            (0..size.min(Self::MAX))
+                .map(|_| loom::cell::UnsafeCell::new(()))
+                .collect(),
         ))
     }
     fn written(&self, begin: usize, end: usize) {
-        for cell in &self.0[begin..end] {
+        let len = self.0.len();
+        for cell in &self.0[begin.min(len)..end.min(len)] {
             cell.with_mut(|_| ());
         }
     }
     fn read(&self, end: usize) {
-        for cell in &self.0[..end] {
+        for cell in &self.0[..end.min(self.0.len())] {
             cell.with(|_| ());
         }
     }
